@@ -3,10 +3,12 @@
 use crate::report::{Config, Tier};
 
 pub mod c01;
+pub mod c04;
 
 pub fn configs(prop: &str, tier: Tier) -> Option<Vec<Box<dyn Config>>> {
     Some(match prop {
         "C01" => c01::configs(tier),
+        "C04" => c04::configs(tier),
         _ => return None,
     })
 }
